@@ -3,6 +3,7 @@ import KV.PlanLemmas
 import KV.Value
 import KV.CallsValue
 import KV.Perm
+import KV.Generated.TypeCases
 /-! # C02 — injector result equals sequential evaluation of the declared graph
 
 Property statements only.  Values are Herbrand terms (`KV.Val`): providers are uninterpreted, so "equal
@@ -219,6 +220,14 @@ example : (∃ p', plan declB 1 = .ok p') ↔ (∃ p, plan declA 1 = .ok p) :=
 example : RefuseExamples.isOk (plan nestedOuterFirst 6) = true ∧
     RefuseExamples.isOk (plan nestedInnerFirst 6) = true := by decide
 end
+
+/-- the planner finds the supplier of a type by type identity: no table of `NewGraph` is keyed by the spelling of a
+    type (`map[string]…` filled through `t.String()`), the supplier and argument tables are `typeutil.Map`s
+    (regenerated from graph.go; before fix 5cbfa32 both were keyed by spelling, so `byte` did not supply `uint8`).
+    The model's type identity is equality of type ids; this fact is what lets ids stand for Go types. -/
+theorem C02_suppliers_by_identity :
+    Gen.newGraphTablesKeyedBySpelling = [] ∧
+    (["argNodeMap", "fnProviderMap"].all (fun k => Gen.newGraphTablesKeyedByIdentity.contains k)) = true := by decide
 
 end C02
 
